@@ -25,8 +25,9 @@ impl InsertionEvaluator for OneShot {
     }
 }
 
-const KINDS: [(GoalKind, &str); 5] = [
+const KINDS: [(GoalKind, &str); 6] = [
     (GoalKind::OnlyUnassigned, "unassigned"),
+    (GoalKind::OnlyWeightedUnassigned, "weighted-unassigned"),
     (GoalKind::OnlyTours, "tours"),
     (GoalKind::OnlyDistance, "distance"),
     (GoalKind::OnlyValue, "value"),
